@@ -2,7 +2,7 @@
 from . import vise, core
 PID = 'C18'
 MC = ['C18_LangReaches']
-TR = ['C18_Lang', 'C18_ExecLookups', 'C18_FlushLookups', 'C18_LangPersisted']
+TR = ['C18_Lang', 'C18_ExecLookups', 'C18_FlushLookups', 'C18_LangPersisted', 'C18_Translate', 'C18_TranslateStatic', 'C18_PageHasText']
 
 
 def run(tier):
@@ -13,7 +13,27 @@ def run(tier):
     f.out.stage('A model check'); f.model_check(7 if t else 5)
     f.out.stage('B+C model histories on the real engine'); f.replay_model(5 if t else 4)
     f.out.stage('C random programs with language-switching symbols'); f.random(300 if t else 40, 30 if t else 20, 14, 'LP')
+    f.out.stage('C end to end: real DbResource over the memory backend with translation subsets'); langrun(f, 120 if t else 15, 12, 10)
     return f.finish('Programs switching language 0-3 times (valid 2/3-letter codes, invalid strings, empty) at arbitrary points, both modes;')
+
+
+def langrun(f, napps, nsess, maxreq):
+    import os, json
+    tr = os.path.join(f.d, 'lang.ndjson')
+    p = core.run_harness(['lang-run', tr, str(napps), str(nsess), str(maxreq)])
+    f.out.cov['traces_validated_against_impl'] += napps * nsess
+    viol, st = core.validate_trace('ViseTrace', 'vt.cfg', tr, workdir=f.w, chunk=5000, par=core.NCPU)
+    f.out.cov['evaluations'] += st['events']
+    for i, line in enumerate(open(tr)):
+        ev = json.loads(line)
+        for t in ev['tags']:
+            f.pairs.add(('langout', t['kind'], t['variant'] == 'default', ev['mode']))
+        if i == 7:
+            f.out.sample(dict(kind='request served from DbResource with translations', lang=ev['lang'], tags=ev['tags'], translated=ev['translated'][:6]))
+    for inv, idx, ev in viol:
+        if inv.startswith('C18'):
+            f.out.violation('%s violated end to end (DbResource over memDb): session language %r, tags %s, translations %s' % (inv, ev['lang'], ev['tags'], ev['translated']),
+                            dict(property=PID, kind='lang-run', invariant=inv, event=ev))
 
 
 def replay(path):
